@@ -11,15 +11,20 @@ RULE = (
     "case = (tree shape, class mix incl. symlinks inside/outside/link-to-link, entry node, protocol or deepcopy); all ordered trees up to n nodes x every entry node x class mixes "
     "x protocols 0-5 (2-5 for __slots__ classes) + deepcopy; random trees <=40 nodes, depth <=100; distinct = hash of the configuration; trivial = none"
 )
-ASSUMPTIONS = ["depth <= 100 (pickle/deepcopy recursion limits are Python's)", "node classes are importable module-level classes (a pickle requirement)"]
+ASSUMPTIONS = ["the workers run with a recursion limit of 8 000 frames: copies of chains up to 100 levels are demanded, the number of frames pickle / deepcopy need per level is not","depth <= 100 (pickle/deepcopy recursion limits are Python's)", "node classes are importable module-level classes (a pickle requirement)"]
 GATES = ["mon.C19.bijection", "mon.C19.independence", "C19.pickle", "C19.deepcopy", "C19.symlink_inside", "C19.symlink_outside", "C19.link_to_link", "C19.slots", "C19.entry_not_root", "C19.special_method_classes", "C19.after_faulted_history", "C19.tree_used_before_copy"]
 
 MIXES = ("Node", "AnyNode", "NM", "LM", "MIXSYM", "HNode", "FALSY", "VALNM", "VALLM", "FALSYNODE", "LMSUB", "FALSYLM", "NMSLOTS")
 
 
+REPLAY_SPEC = {"recursionlimit": 8000}
+
+
 def plan(tier, seed, jobs):
     n = max(2, min(16, jobs))
-    return [{"assertions": i % 2, "shard": i, "nshards": n} for i in range(n)]
+    # pickle and deepcopy recurse through the tree with several frames per level; how many is an implementation detail of
+    # the node classes, so the interpreter's default limit must not decide whether a 100-level chain can be copied
+    return [{"assertions": i % 2, "shard": i, "nshards": n, "recursionlimit": 8000} for i in range(n)]
 
 
 def build(par, mix, rng):
